@@ -33,8 +33,8 @@ func chainConfig_IT(mode string) *params.ChainConfig {
 
 // vmConfig_IT: the in-tree EVM meters against a per-transaction budget
 // (documented deviation); it gets an ample one.
-func vmConfig_IT(tr *tracer_IT) vm.Config {
-	c := vm.Config{EVMGasLimit: ampleGas}
+func vmConfig_IT(tr *tracer_IT, gas uint64) vm.Config {
+	c := vm.Config{EVMGasLimit: gas}
 	if tr != nil {
 		c.Debug = true
 		c.Tracer = tr
